@@ -35,8 +35,13 @@ func FactoidToFactoshi(amt string) (uint64, error) {
 
 	dot := regexp.MustCompile(`\.`)
 	pieces := dot.Split(amt, 2)
-	whole, _ := strconv.Atoi(pieces[0])
-	total += uint64(whole) * 1e8
+	if pieces[0] != "" {
+		whole, err := strconv.ParseUint(pieces[0], 10, 64)
+		if err != nil || whole > math.MaxUint64/100000000 {
+			return 0, fmt.Errorf("amount is too large")
+		}
+		total += whole * 1e8
+	}
 
 	if len(pieces) > 1 {
 		if len(pieces[1]) > 8 {
@@ -48,7 +53,11 @@ func FactoidToFactoshi(amt string) (uint64, error) {
 		as := a.FindStringSubmatch(pieces[1])
 		part, _ := strconv.Atoi(as[0])
 		power := len(as[1]) + len(as[2])
-		total += uint64(part * 1e8 / int(math.Pow10(power)))
+		frac := uint64(part * 1e8 / int(math.Pow10(power)))
+		if total+frac < total {
+			return 0, fmt.Errorf("amount is too large")
+		}
+		total += frac
 	}
 
 	return total, nil
